@@ -224,8 +224,10 @@ struct RunResult {
   std::string key_before, key_after;
   uint64_t digest = 0;
   int nfail = 0;
+  long events = 0;
 };
 static World g_w;
+static bool g_fault_seen = false;
 
 static RunResult run_once(const std::vector<Op> &hist, const Op *op, int K, std::vector<Op> *enabled, const Opts &o) {
   RunResult r;
@@ -247,8 +249,11 @@ static RunResult run_once(const std::vector<Op> &hist, const Op *op, int K, std:
     if (g_reloc >= 1) relocate_all(w);
     g_default_cmp_calls = 0;
     g_final = true;
+    g_last_events = 0;
     apply(w, *op);
     g_final = false;
+    g_fault_seen = op->f > 0 && W().exc && (W().exc_kind == 3 || W().exc_kind == 4);
+    r.events = g_last_events;
     observe<>(w);
     r.key_after = key_of(w);
   }
@@ -274,6 +279,7 @@ struct State {
   int parent;
   Op op;
   int depth;
+  int faults;
 };
 
 int main(int argc, char **argv) {
@@ -283,6 +289,7 @@ int main(int argc, char **argv) {
   std::string replay;
   double deadline = 1e18;
   long maxstates = 20000000;
+  int fault_bound = 0;
   Opts o;
   for (int a = 1; a < argc; ++a) {
     std::string s = argv[a];
@@ -298,6 +305,7 @@ int main(int argc, char **argv) {
     else if (s == "--few-ranges") o.ranges_all = false;
     else if (s == "--no-temps") o.temps = false;
     else if (s == "--no-ctors") o.ctors = false;
+    else if (s == "--fault") fault_bound = std::atoi(nxt().c_str());
     else if (s == "--crumb") {
       std::string p = nxt();
       int fd = open(p.c_str(), O_RDWR | O_CREAT | O_TRUNC, 0644);
@@ -374,10 +382,10 @@ int main(int argc, char **argv) {
     std::vector<Op> none;
     RunResult r0 = run_once(none, nullptr, K, nullptr, o);
     seen[r0.key_before] = 0;
-    states.push_back(State{-1, Op(), 0});
+    states.push_back(State{-1, Op(), 0, 0});
     keys.push_back(r0.key_before);
   }
-  long transitions = 0, viol_total = 0;
+  long transitions = 0, viol_total = 0, fault_transitions = 0, max_events = 0;
   std::map<uint64_t, int> digests;
   std::map<std::string, long> per_kind;
   struct VRec {
@@ -425,17 +433,50 @@ int main(int argc, char **argv) {
       }
       if (seen.find(r.key_after) == seen.end()) {
         seen.emplace(r.key_after, (int)states.size());
-        states.push_back(State{(int)cur, op, states[cur].depth + 1});
+        states.push_back(State{(int)cur, op, states[cur].depth + 1, states[cur].faults});
         keys.push_back(r.key_after);
         maxdepth = std::max(maxdepth, states[cur].depth + 1);
+      }
+      if (fault_bound > 0 && states[cur].faults < fault_bound) {
+        const long EV = r.events;
+        max_events = std::max(max_events, EV);
+        for (long k = 1; k <= EV; ++k) {
+          Op fop = op;
+          fop.f = (int)k;
+          crumb(h, &fop);
+          RunResult rf = run_once(h, &fop, K, nullptr, o);
+          ++transitions;
+          ++fault_transitions;
+          digests[rf.digest] = 1;
+          if (!g_fault_seen) {
+            nondet = "fault " + std::to_string(k) + " of " + std::to_string(EV) + " did not fire in " + op_str(fop) + " after " + hist_str(h);
+            break;
+          }
+          if (rf.nfail) {
+            ++viol_total;
+            std::string sig = std::string(kind_name(op.k)) + "|fault|" + vf::L().fails[0].tags + "|" + vf::L().fails[0].msg;
+            std::string norm;
+            for (char c : sig) norm += (c >= '0' && c <= '9') ? '#' : c;
+            if (viol_sigs.emplace(norm, 1).second && viols.size() < 200)
+              viols.push_back(VRec{vf::L().fails[0].tags, vf::L().fails[0].msg, hist_str(h), op_str(fop), keys[cur]});
+            continue;
+          }
+          if (seen.find(rf.key_after) == seen.end()) {
+            seen.emplace(rf.key_after, (int)states.size());
+            states.push_back(State{(int)cur, fop, states[cur].depth + 1, states[cur].faults + 1});
+            keys.push_back(rf.key_after);
+            maxdepth = std::max(maxdepth, states[cur].depth + 1);
+          }
+        }
+        if (!nondet.empty()) break;
       }
     }
     if (!nondet.empty()) break;
   }
   if (samples.empty() && states.size() > 1) samples.push_back(hist_str(history((int)states.size() - 1)));
   std::printf("{\"instantiation\":%s,\n", inst_json().c_str());
-  std::printf("\"K\":%d,\"L\":%d,\"reloc\":%d,\"states\":%zu,\"transitions\":%ld,\"max_depth\":%d,\"distinct_outcomes\":%zu,\"complete\":%s,\"violating_transitions\":%ld,\n",
-              K, KEYS, g_reloc, states.size(), transitions, maxdepth, digests.size(), complete ? "true" : "false", viol_total);
+  std::printf("\"K\":%d,\"L\":%d,\"reloc\":%d,\"states\":%zu,\"transitions\":%ld,\"max_depth\":%d,\"distinct_outcomes\":%zu,\"complete\":%s,\"violating_transitions\":%ld,\"fault_bound\":%d,\"fault_transitions\":%ld,\"max_fault_points_per_op\":%ld,\n",
+              K, KEYS, g_reloc, states.size(), transitions, maxdepth, digests.size(), complete ? "true" : "false", viol_total, fault_bound, fault_transitions, max_events);
   std::printf("\"claims_reloc\":%s,\"static_fail\":\"%s\",\"nondeterminism\":\"%s\",\n", claims ? "true" : "false", jesc(static_fail).c_str(), jesc(nondet).c_str());
   std::printf("\"per_kind\":{");
   bool first = true;
